@@ -108,8 +108,18 @@ func mixDoc(x *mcx.Exec, tag string) J {
 				m[key] = mixValue(sec, key, tag)
 			}
 		}
-		if sec == "paths" && m == nil && ch(2, "paths.empty") == 1 {
-			m = J{}
+		if sec == "paths" {
+			switch ch(3, "paths.extensions") {
+			case 1:
+				if m == nil {
+					m = J{} // a paths object without any path item
+				}
+			case 2:
+				if m == nil {
+					m = J{}
+				}
+				m["x-paths-"+tag] = tag // vendor extension on the paths object itself
+			}
 		}
 		if m != nil {
 			doc[sec] = m
@@ -272,11 +282,17 @@ func refmix(primary map[string]any, mixins []map[string]any) (map[string]any, []
 				exp[sec] = es
 			}
 			for _, k := range h.SortedKeys(ms) {
+				if sec == "paths" && strings.HasPrefix(k, "x-") {
+					continue // vendor extensions of a mixin's paths object are not path items: nothing is claimed about them
+				}
 				if _, dup := es[k]; dup {
 					warns = append(warns, mixWarn{sec, k})
 					continue
 				}
 				es[k] = ms[k]
+			}
+			if len(es) == 0 {
+				delete(exp, sec)
 			}
 		}
 	}
